@@ -2,13 +2,13 @@ SPECIFICATION Spec
 CONSTANTS
   HDR = 2
   ENT = 1
-  N = 2
-  WT = {1, 2}
-  OT = {7, 8}
+  N = 3
+  WT = {1, 2, 3}
+  OT = {7}
   KS = {1, 2}
-  AddCs = {0, 1, 9}
-  RepCs <- RepCsFull
-  DescSel = {1,2,3,4,5,6,8,9,10,11,12,14,16,18}
+  AddCs = {0, 9}
+  RepCs <- RepCsSmall
+  DescSel = {1,4,5,6,7,9,11,13,14,15,18}
   Readers = {}
   ImplicitModes <- ImplicitRb
 INVARIANT InvWellFormed
